@@ -192,3 +192,13 @@ _add('C01', 'decides', 'wrappers_read_data (Verus): DATA appends its values in o
 _add('C05', 'decides', 'wrappers_err: ERR is the code of the most recent trapped error or 0; reading it does not clear it.')
 _add('C08', 'decides', 'builtin_dispatch: every built-in goes to exactly its own wrapper; wrappers_misc / wrappers_read_data / wrappers_err / file_wrappers_*: every unwrap/expect/panic of the built-in wrappers under contract is unreachable under the argument shape the checker rule of that built-in (builtin_arg_rules) and the parser encoding (opt_args_flags) establish; peek_seg0 / poke_seg0 total; PANIC_SITES.md accounts for every panic site of the repository.')
 _add('C17', 'decides', 'wrappers_misc: LEN of a string is its number of characters (LEN(a+b) = LEN(a)+LEN(b)), of a numeric variable its size in bytes.')
+
+_set('C01', 'technique', 'Kani full-domain operator harnesses + Verus contracts on the VM handlers, DATA segment / READ / DATA wrappers, label resolver and the checker pipeline')
+_set('C03', 'technique', 'Verus data-structure invariant with ghost block identities on the real Context/MemoryBlock/IndexedMap methods + Verus contracts on the call emitters of the generator (by-ref protocol, argument conversion)')
+_set('C04', 'technique', 'Verus contracts + lemmas (mixed-radix injectivity) on the extracted VArray methods, the record value, the property / REDIM rules of the converter; Kani for casts/strings and black-box companions')
+_set('C05', 'technique', 'Verus contracts on the extracted interpret_one/interpret/handlers/finder, on the block-exit marking of the generator and the ERR wrapper + Kani enum-complete harnesses on error codes')
+_set('C08', 'technique', 'Kani enum-complete and totality harnesses + Verus panic-freedom obligations (R2: panic!/expect/unwrap become unreachable obligations) on the units under contract, incl. the built-in dispatcher, wrappers and argument rules; panic-site inventory generated from the evidence')
+_set('C11', 'technique', 'Verus contract against a recursive spec of line/column, on the stack-trace order and on the re-positioning impls of the converter; Kani for the WithPos combinator')
+_set('C12', 'technique', 'Kani table-vs-implementation harnesses on the real linter and VM functions; Verus contracts on the extracted linter traversals (trait-level contract shared by the overriding linters), type rules, argument rules and the checker pipeline')
+_set('C13', 'technique', 'Kani complete harnesses (26-letter loops unwound) + Verus contracts on the name tables and on every name / DIM / REDIM rule of the converter')
+_set('C15', 'technique', 'Verus contracts on the extracted label resolver / address bookkeeping and on the whole extracted code generator (linear stack discipline, label closure, program shape)')
